@@ -480,7 +480,11 @@ def regex_violation(eng, key, ob, r, repo_root):
     for d in m.decls():
         if z3.is_string_value(m[d]):
             w = unescape(m[d].as_string())
+    if w is None and (ob.info or {}).get('witness'):
+        w = ob.info['witness']
     base['model'] = 'x = %r' % (w,)
+    if w is not None and ob.name.startswith('linebreak:'):
+        return linebreak_violation(base, detail, w, repo_root)
     if w is None:
         base.update({'detail': detail, 'suffix': 'no-failing-input-found'})
         return base
@@ -504,6 +508,29 @@ def regex_violation(eng, key, ob, r, repo_root):
                              'suffix': ''})
                 return base
     base.update({'detail': detail + '; witness %r lexes as documented in %d contexts' % (w, len(tried)),
+                 'suffix': 'no-failing-input-found'})
+    return base
+
+
+def linebreak_violation(base, detail, w, repo_root):
+    """a refuted line-terminator fact: the witness separator is placed where a line break matters and
+    string input is compared with file input (the bounded tier's C09.newlines check is the oracle)"""
+    for tmpl in ('# ::snt foo{0}bar\n(a / b)', '# ::id 1{0}(a / b){0}{0}(c / d){0}', '(a / b ; c{0} :r d)',
+                 '(a / b{0} :r c)', '# ::snt x{0}# ::id 2\n(a / b)'):
+        text = tmpl.format(w)
+        env = dict(os.environ, PYTHONPATH=repo_root + os.pathsep + VERIF, VERIF_REPO=repo_root, PYTHONDONTWRITEBYTECODE='1')
+        rep = {'check': 'C09.newlines', 'args': {'$d': [['text', text]]}}
+        pr = subprocess.run([PY_PENMAN, '-m', 'vlib.bounded.drv', '--replay', json.dumps(rep)],
+                            cwd=VERIF, env=env, capture_output=True, text=True, timeout=120)
+        try:
+            out = json.loads(pr.stdout.strip().splitlines()[-1])
+        except Exception:
+            continue
+        if out.get('detail') not in (None, 'SKIP') and out.get('finding') is None:
+            base['replay'] = dict(rep, native=out)
+            base.update({'detail': detail + '; REPRODUCED natively on %r: %s' % (text, out['detail'][:200]), 'suffix': ''})
+            return base
+    base.update({'detail': detail + '; separator %r: string and file input agree on the probes' % (w,),
                  'suffix': 'no-failing-input-found'})
     return base
 
